@@ -360,7 +360,10 @@ def path_flags(root: Path, proj: dict) -> tuple[list[int], list]:
     meaning; here they are parameters of the model).  The ignore file on disk is put back afterwards."""
     ensure_repo_on_path()
     from src.orchestrator import core
-    hard = [i for i, p in enumerate(proj["paths"]) if core._is_hardcoded_excluded(root / p)]
+    probe = fresh_linter(root).orchestrator
+    inside = getattr(probe, "_path_inside_project", lambda f: f)     # the exclusion is decided on the path inside the project
+    hard = [i for i, p in enumerate(proj["paths"]) if core._is_hardcoded_excluded(inside(root / p))]
+    del probe
     ig_file = root / IGNORE_NAME
     before = ig_file.read_text() if ig_file.exists() else None
     versions = [None] + [cid for cid, (p, _items) in enumerate(proj["contents"]) if p == IGNORE_NAME]
